@@ -18,6 +18,9 @@ import (
 // in a committed ledger (/verif/ledger/<Cnn>.json), keyed by function, kind of site, the expression text and its
 // occurrence among equal texts (no line numbers). The check of the property re-proves the ledger.
 
+// sweepMaxNodes: functions with more syntax nodes than this are not attempted by the sweep.
+const sweepMaxNodes = 1500
+
 type ledgerSite struct {
 	Func string `json:"func"`
 	Kind string `json:"kind"`
@@ -31,6 +34,10 @@ type ledgerFile struct {
 	Property string       `json:"property"`
 	Scope    []string     `json:"scope"`
 	Sites    []ledgerSite `json:"sites"`
+	// Closed: functions in which the sweep proved every index, slice, make, map-store and division site. For these
+	// the claim is about the function, not about a list of expressions: a site that appears in one of them later and
+	// is refuted (the solver gives an input of that function on which it panics) is a violation too.
+	Closed []string `json:"closed_funcs"`
 }
 
 func ledgerPath(out, prop string) string { return filepath.Join(out, "ledger", prop+".json") }
@@ -158,6 +165,7 @@ func cmdSweep(args []string) int {
 		ms             int64
 	}
 	var results []siteResult
+	var swept []string
 	skipped, big := 0, 0
 	smtDir := filepath.Join(scratch, "smt")
 	os.MkdirAll(smtDir, 0o755)
@@ -181,8 +189,8 @@ func cmdSweep(args []string) int {
 		// very large functions (the interpreter's dispatch tables) are outside what the sweep attempts
 		if src := r.Prog.FuncDecls[f]; src != nil {
 			nodes := 0
-			ast.Inspect(src.Decl.Body, func(ast.Node) bool { nodes++; return nodes < 6000 })
-			if nodes >= 6000 {
+			ast.Inspect(src.Decl.Body, func(ast.Node) bool { nodes++; return nodes < sweepMaxNodes })
+			if nodes >= sweepMaxNodes {
 				big++
 				continue
 			}
@@ -195,6 +203,7 @@ func cmdSweep(args []string) int {
 			skipped++
 			continue
 		}
+		swept = append(swept, f)
 		for k, o := range sites {
 			parts := strings.SplitN(k, "|", 4)
 			var occ int
@@ -225,6 +234,24 @@ func cmdSweep(args []string) int {
 			open = append(open, fmt.Sprintf("%s\t%s\t%s\t%s\t%s", res.answer, s.Kind, shortFuncName(s.Func), res.pos, s.Text))
 		}
 	}
+	perFunc := map[string][2]int{}
+	for _, res := range results {
+		if res.site.Kind == "nil" {
+			continue
+		}
+		c := perFunc[res.site.Func]
+		c[0]++
+		if res.answer == "unsat" && res.ms < 2000 {
+			c[1]++
+		}
+		perFunc[res.site.Func] = c
+	}
+	for _, f := range swept {
+		if c := perFunc[f]; c[0] == c[1] {
+			lf.Closed = append(lf.Closed, f) // every site proved (possibly none to prove)
+		}
+	}
+	sort.Strings(lf.Closed)
 	sort.Strings(open)
 	os.WriteFile(filepath.Join(out, "ledger", prop+".open.txt"), []byte(strings.Join(open, "\n")+"\n"), 0o644)
 	sort.Slice(lf.Sites, func(i, j int) bool { return lf.Sites[i].key() < lf.Sites[j].key() })
@@ -241,6 +268,10 @@ func ledgerExtra(r *Run) error {
 	if err != nil {
 		return fmt.Errorf("ledger: %v", err)
 	}
+	closed := map[string]bool{}
+	for _, f := range lf.Closed {
+		closed[f] = true
+	}
 	byFunc := map[string][]ledgerSite{}
 	for _, s := range lf.Sites {
 		byFunc[s.Func] = append(byFunc[s.Func], s)
@@ -248,6 +279,11 @@ func ledgerExtra(r *Run) error {
 	var funcs []string
 	for f := range byFunc {
 		funcs = append(funcs, f)
+	}
+	for f := range closed {
+		if _, ok := byFunc[f]; !ok {
+			funcs = append(funcs, f)
+		}
 	}
 	sort.Strings(funcs)
 	gone, other := 0, 0
@@ -272,10 +308,20 @@ func ledgerExtra(r *Run) error {
 			o.Name = fmt.Sprintf("%s/ledger-%s[%s]#%d", shortFuncName(f), s.Kind, s.Text, s.Occ)
 			r.Extra = append(r.Extra, o)
 		}
-		for k := range sites {
-			if !want[k] {
-				other++
+		isClosed := closed[f]
+		for k, o := range sites {
+			if want[k] {
+				continue
 			}
+			parts := strings.SplitN(k, "|", 4)
+			if isClosed && parts[1] != "nil" {
+				// a site that was not there when every site of this function was proved: claimed only if refuted
+				o.Name = fmt.Sprintf("%s/ledger-new-%s[%s]#%s", shortFuncName(f), parts[1], parts[2], parts[3])
+				o.SoftTimeout = true
+				r.Extra = append(r.Extra, o)
+				continue
+			}
+			other++
 		}
 	}
 	r.Notes = append(r.Notes, fmt.Sprintf("ledger %s: %d sites in %d functions; %d sites no longer present (undecided); %d further safe sites in those functions are not in the ledger (never proved: undecided, not claimed)", r.Prop, len(lf.Sites), len(funcs), gone, other))
